@@ -44,6 +44,20 @@ def refine_cases(ctx, viol, st):
                          [ds.point_depths[k] for k in ids], pdepth,
                          all(np.array_equal(ds.confidence_regions[k].lower, plo) and np.array_equal(ds.confidence_regions[k].upper, pup) for k in ids),
                          len(ds.points) == len(ds.cells) == len(ds.point_depths) == len(ds.confidence_regions) == ds.cardinality))
+    # the refinement oracle refuses nodes at (or beyond) the maximum depth, for every maximum depth >= 1 — before looking at the model
+    for d in (1, 2, 3):
+        for maxd in (1, 2, 3):
+            ds = AdaptivelyDiscretizedDesignSpace(d, 2, delta=0.1, max_depth=maxd)
+            node = 0
+            for _ in range(maxd - 1):
+                node = ds.refine_design(node)[0]
+            st["refinements"] += 1
+            try:
+                ans = ds.should_refine_design(None, node, 1.0)
+            except Exception as e:
+                ans = "EXC:" + type(e).__name__
+            if ans is not False:
+                viol.append({"signature": "refine-beyond-max-depth", "message": f"should_refine_design on a node at depth {ds.point_depths[node]} of a {d}-D space with max_depth={maxd} answered {ans}; it must refuse (False) without consulting the model", "replay": {"kind": "refine", "d": d}})
     out = ctx.model(lines)
     for (d, i, n0, ids, cells, pts, depths, pdepth, regions_ok, arrays_ok), o in zip(meta, out):
         ref = common.dec(o)
@@ -98,10 +112,13 @@ class StubGP:
         return "RBF"
 
 
+FORCE_DEPTH = [None]
+
+
 def make_problem(rng, d):
     from vopy.maximization_problem import ContinuousProblem
     a = [rng.choice([-1.0, 1.0, 2.0]) for _ in range(d)]; b = [rng.choice([0.25, 0.5, 0.75]) for _ in range(d)]
-    depth = rng.choice([2, 3, 3, 4])
+    depth = FORCE_DEPTH[0] if FORCE_DEPTH[0] else rng.choice([2, 3, 3, 4])
 
     class P(ContinuousProblem):
         in_dim = d; out_dim = 2; depth_max = depth; bounds = [(0.0, 1.0)] * d
@@ -122,9 +139,12 @@ def vogp_ad_runs(ctx, viol, st):
     from vopy.algorithms import VOGP_AD
     from vopy.order import ComponentwiseOrder, ConeTheta2DOrder
     rng = ctx.rng
-    for run_i in range(6 if ctx.quick else 60):
+    nruns = 6 if ctx.quick else 60
+    for run_i in range(nruns + 2):
         d = rng.choice([1, 1, 2])
+        FORCE_DEPTH[0] = 1 if run_i >= nruns else None          # boundary configuration: maximum depth 1 (one with, one without extra calls)
         prob, depth = make_problem(rng, d)
+        FORCE_DEPTH[0] = None
         stub = StubGP(prob, rng.choice([0.5, 1.0, 2.0]))
         old = mod.get_gpytorch_model_w_known_hyperparams
         mod.get_gpytorch_model_w_known_hyperparams = lambda *a, **k: stub
